@@ -64,6 +64,11 @@ func VH_C15_Rename_sym() {
 	vAssert("renamed_away_file_gone", vfs.find("/cfg/Users/bob.yaml") < 0)
 	c15Consistent(am, []string{"rob", "amy"})
 	vAssert("renamed_keeps_fields", am.Get("rob").Name == "Bob" && am.Get("rob").Password == "H:pw")
+	// the file under the new name records the new login (so a restart loads it under the new login)
+	i := vfs.find("/cfg/Users/rob.yaml")
+	vAssert("renamed_file_exists", i >= 0)
+	want := "Login: rob\n"
+	vAssert("renamed_file_records_new_login", len(vfs.data[i]) >= len(want) && string(vfs.data[i][:len(want)]) == want)
 }
 
 func VH_C15_Delete_sym() {
